@@ -45,6 +45,7 @@ PROBLEMS = {
     "feaslin": dict(n=1, x0=[0.5], bounds=None, lin=[([[1.0]], [-INF], [0.0])], fun=False),
     "dict":    dict(n=1, x0=[0.5], bounds=None, nl=[(1, [0.0], [INF], "dict-ineq")]),
     "narrow":  dict(n=1, x0=[0.1], bounds=[[0.0, 0.5]]),
+    "narrow2": dict(n=1, x0=[0.1], bounds=[[0.0, 0.25]]),
     "contra":  dict(n=1, x0=[0.5], bounds=None, lin=[([[1.0]], [-INF], [0.0]), ([[1.0]], [1.0], [INF]), ([[2.0]], [-INF], [0.0])]),
     "infeasnl": dict(n=1, x0=[0.5], bounds=[[1.0, 0.0]], nl=[(1, [-INF], [0.0], "nlc")]),
     "allfixnl": dict(n=2, x0=[0.0, 0.0], bounds=[[1.0, 1.0], [2.0, 2.0]], nl=[(2, [-INF, 0.0], [0.0, 0.0], "nlc")],
@@ -210,6 +211,7 @@ class Ctl(Harness):
             add("dict", 2, 1, npt=2, cb="kw")
             add("dict2", 2, 1, npt=2, con_const=0.5)
             add("narrow", 4, 2, cb="pos", hist=1)
+            add("narrow2", 4, 2, fun_seq=[5.0, 4.0, 6.0, 3.5])
             add("contra", 3, 1, cb="kw")
             add("infeasnl", 3, 1, cb="pos", kinds="all")
             add("allfixnl", 3, 1, cb="kw", kinds="all")
@@ -275,7 +277,7 @@ class Ctl(Harness):
             if d.get("fun_seq"):
                 return prop in ("C07", "C18", "C05", "C12", "C08", "C02", "C03", "C20", "C09", "C06")
             if prop in ("C11", "C18", "C12"):
-                return d["pb"] in ("unc1", "box1", "lineq", "box2s", "linub", "fixed1", "nanbox", "nanboxarr") or \
+                return d["pb"] in ("unc1", "box1", "lineq", "box2s", "linub", "fixed1", "nanbox", "nanboxarr", "narrow", "narrow2") or \
                     (d["pb"] in ("nlub", "feas") and d["kinds"] == "fin") or (d["pb"] == "boxnls" and prop != "C11")
             return True
         return [d for d in S if keep(d)]
